@@ -144,6 +144,9 @@ class Ctx:
             if f["kind"] == "finding" and f["key"] == key:
                 self.known_hits[key] = f["text"]
                 return False
+        if sum(1 for v in self.violations if v[0] == key) >= 3:
+            self.cov["more_violations_same_key"] = self.cov.get("more_violations_same_key", 0) + 1
+            return True
         n = len(self.violations) + 1
         rp = os.path.join(VERIF, "replays", "%s-%d.ndjson" % (self.prop, n))
         os.makedirs(os.path.dirname(rp), exist_ok=True)
@@ -410,7 +413,7 @@ def split_executions(lines, reset_event="reset"):
 
 
 def validate_traces(ctx, spec_dir, module, cfg, trace_file, classify, max_rejects=8, shards=None,
-                    timeout=900, reset_event="reset", env=None):
+                    timeout=900, reset_event="reset", env=None, property_level=None):
     """Validate an ndjson trace consisting of many executions (each starting with a reset event).
     On a rejection the offending execution is cut out, re-validated alone (a rejection counts only
     if it repeats) and validation continues with the remainder.
@@ -479,6 +482,18 @@ def validate_traces(ctx, spec_dir, module, cfg, trace_file, classify, max_reject
             all_rej += rej
     ctx.cov["traces_validated_against_impl"] += tot_acc + len(all_rej)
     ctx.cov["events_validated"] += tot_events
+    if all_rej and property_level is not None:
+        # The rejecting spec is implementation-shaped.  Only the property-level spec decides (DESIGN R1): validate the
+        # whole file against it; what it accepts although the I-level spec rejected is recorded as DRIFT, never as a violation.
+        pdir, pmod, pcfg = property_level
+        ctx.cov["drift_executions"] = ctx.cov.get("drift_executions", 0) + len(all_rej)
+        bad0, at0 = all_rej[0]
+        ctx.notes.append("DRIFT: %d+ executions are not behaviours of %s (first: event %d: %s); verdict taken from %s" %
+                         (len(all_rej), module, at0 + 1, bad0[min(at0, len(bad0) - 1)][:160], pmod))
+        ctx.cov["traces_validated_against_impl"] -= tot_acc + len(all_rej)
+        ctx.cov["events_validated"] -= tot_events
+        return validate_traces(ctx, pdir, pmod, pcfg, trace_file, classify, max_rejects=max_rejects, shards=shards,
+                               timeout=timeout, reset_event=reset_event, env=env)
     for bad, at in all_rej:
         key, text = classify(bad, at)
         ctx.violation(key, text + " (rejected at event %d of %d: %s)" % (at + 1, len(bad), bad[min(at, len(bad) - 1)][:300]),
